@@ -45,7 +45,10 @@ func Now() time.Time {
 	if s.mode != Controlled {
 		return time.Now()
 	}
-	return time.Unix(0, clk.now)
+	// UTC location on purpose: a real time.Now() carries a monotonic reading and is therefore never
+	// `==` to a file's ModTime() even at the same instant; a virtual Now() in the Local location
+	// would be, and olareg compares `dr.timeMod == stat.ModTime()`. Equal/Before/After/Sub are unaffected.
+	return time.Unix(0, clk.now).UTC()
 }
 
 //go:norace
